@@ -144,6 +144,38 @@ func concOps() []concOp {
 			}
 			return "fresh names rendered as expected"
 		}},
+		// a file of the goroutine's own, rewritten in place before the call (same length, same modification time)
+		{"EvaluateFile(own file rewritten in place)", false, func(tpl *textwire.Template, data map[string]any, abs string) string {
+			n := freshCounter.Add(1)
+			own := filepath.Join(filepath.Dir(abs), fmt.Sprintf("own-%v.tw", data["gid"]))
+			tag, d := "bi"[n%2], n%10
+			if err := os.WriteFile(own, []byte(fmt.Sprintf("<%c>{{ %d * 3 }}</%c> own {{ gid }}", tag, d, tag)), 0o644); err != nil {
+				return "own file: " + err.Error()
+			}
+			os.Chtimes(own, fixedMtime, fixedMtime)
+			out, err := textwire.EvaluateFile(own, data)
+			if want := fmt.Sprintf("<%c>%d</%c> own %v", tag, d*3, tag, data["gid"]); err != nil || out != want {
+				return fmt.Sprintf("own file: got (%q, %v), want %q", out, err, want)
+			}
+			return "own file rendered as expected"
+		}},
+		// two struct types that are both called row where they are declared
+		{"EvaluateString(two types named row)", false, func(tpl *textwire.Template, data map[string]any, abs string) string {
+			n := freshCounter.Add(1)
+			var out, want string
+			var err error
+			if n%2 == 0 {
+				out, err = textwire.EvaluateString("{{ r.num }} {{ r.name }} {{ rs[0].name }}", map[string]any{"r": c15RowA(n), "rs": []any{c15RowA(n)}})
+				want = fmt.Sprintf("%d name%d name%d", n, n, n)
+			} else {
+				out, err = textwire.EvaluateString("{{ r.num }} {{ r.note }} {{ r.qty }} {{ rs[0].note }}", map[string]any{"r": c15RowB(n), "rs": []any{c15RowB(n)}})
+				want = fmt.Sprintf("%d note%d %d note%d", n, n, n+1, n)
+			}
+			if err != nil || out != want {
+				return fmt.Sprintf("two types named row: got (%q, %v), want %q", out, err, want)
+			}
+			return "two types named row rendered as expected"
+		}},
 		// postfix operators on floats
 		{"String(floatdec)", false, str("floatdec")},
 		// literals holding markup that no call of this process has evaluated before
@@ -353,6 +385,14 @@ func init() {
 					for k, op := range ops {
 						base[g][k] = op.run(baseTpl, dataOf(g), abs)
 						c.Eval(1)
+					}
+				}
+				// operations that check themselves say so: alone they must be as expected already
+				for g := 0; g < cfg.g && g < 2; g++ {
+					for k, op := range ops {
+						if strings.Contains(base[g][k], ": got (") {
+							c.Violation("alone:"+op.name, fmt.Sprintf("run alone, %s reports: %s", op.name, clipS(base[g][k], 500)), desc)
+						}
 					}
 				}
 				var firstFailing []int
@@ -735,4 +775,21 @@ func coldBurst(c *core.Ctx) {
 		}
 	}
 	c.Eval(G * 5)
+}
+
+func c15RowA(n int64) any {
+	type row struct {
+		Num  int64
+		Name string
+	}
+	return row{Num: n, Name: fmt.Sprintf("name%d", n)}
+}
+
+func c15RowB(n int64) any {
+	type row struct {
+		Num  int64
+		Note string
+		Qty  int64
+	}
+	return &row{Num: n, Note: fmt.Sprintf("note%d", n), Qty: n + 1}
 }
